@@ -54,7 +54,12 @@ def run(ctx):
                 r_ = PEval([u]).call_with(f, [i_], this=Vec('this', list(order_)))
                 got.append(order_[r_.idx] if isinstance(r_, Ord) else repr(r_))
         except (PUnd, PFault) as e_:
-            ctx.undecided('C13-R1', 'Vector%d::at|coordinate' % n, f, 'the coordinate accessor could not be evaluated (%s)' % e_)
+            n_at += 1
+            from peval import Thrown as _PThrown
+            if isinstance(e_, (_PThrown, PFault)):
+                ctx.bad('C13-R1', 'Vector%d::at|coordinate' % n, f, 'Vector%d::at(%d) %s for a valid dimension: a %d-dimensional tree cannot read coordinate %d (insert and the box queries throw, exists() swallows it and answers false)' % (n, len(got), 'throws %s' % e_.etype if isinstance(e_, _PThrown) else 'faults (%s)' % e_, n, len(got)))
+            else:
+                ctx.undecided('C13-R1', 'Vector%d::at|coordinate' % n, f, 'the coordinate accessor could not be evaluated (%s)' % e_)
             continue
         n_at += 1
         ctx.check(got == comps, 'C13-R1', 'Vector%d::at|coordinate' % n, f, 'at(d) is coordinate d for d = 0..%d' % (n - 1),
@@ -615,8 +620,13 @@ def _check_r5(ctx, u, lab, m, ln, dn, calls):
     inside = [x for x in rf if enclosing(x, LOOPS) is not None]
     mt = [x for x in walk(body_of(er)) if x.get('kind') == 'IfStmt' and any(c.get('kind') == 'CXXMemberCallExpr' and call_name(c) == 'delete_node' for c in walk(if_parts(x)[1]))]
     okm = len(mt) == 1 and nf(if_parts(mt[0])[0]) in ('((n.pt == pt) && (n.value == v))', '((n.value == v) && (n.pt == pt))') and not falls_through(if_parts(mt[0])[1])
-    ctx.check(not inside and okm, R, lab + '|erase|whole-descent', inside[0] if inside else er, 'erase reports failure only after the descent reached a null child; a node matches iff point and value both match',
-              'erase gives up inside the descent (%s): with duplicate points and different values the matching entry further down is never reached, erase returns false and removes nothing' % (src_text(inside[0].get('_p') or inside[0], 60) if inside else 'match test changed'))
+    dcalls = [c for c in walk(body_of(er)) if c.get('kind') == 'CXXMemberCallExpr' and call_name(c) == 'delete_node']
+    match_in_loop_cond = any(lp2.get('kind') in ('WhileStmt', 'ForStmt') and any(y.get('kind') == 'MemberExpr' and y.get('name') in ('pt', 'value') for y in walk((while_parts(lp2)[0] if lp2.get('kind') == 'WhileStmt' else for_parts(lp2)[2]) or {})) for lp2 in walk(body_of(er)))
+    if not inside and not mt and dcalls and match_in_loop_cond:
+        ctx.undecided(R, lab + '|erase|whole-descent', er, 'the match test is part of the descent loop\'s condition and delete_node follows the loop: the exit-condition reasoning this needs is not modelled')
+    else:
+      ctx.check(not inside and okm, R, lab + '|erase|whole-descent', inside[0] if inside else er, 'erase reports failure only after the descent reached a null child; a node matches iff point and value both match',
+                'erase gives up inside the descent (%s): with duplicate points and different values the matching entry further down is never reached, erase returns false and removes nothing' % (src_text(inside[0].get('_p') or inside[0], 60) if inside else 'match test changed'))
     ea = one(m, 'erase_advance')
     def _freed_fact(c):
         for n_, pol in atoms(path_facts(c)):
